@@ -68,12 +68,12 @@ def consts(**kw):
 
 # ------------------------------------------------------------------------------- TLC on the design
 def design(ctx, out):
-    """The intended design satisfies the property (every action taken); every broken variant is refuted."""
+    """The intended design satisfies the property (every action taken)."""
     try:
         keys, ids = ["k1", "k2"], ctx.pick(["a"], ["a", "b"])
         r = ctx.tlc("design", MODS[:1], mc("design", "Expire", keys, ids, ["h1"], ["c1"], [1, 3]),
                     "SPECIFICATION Spec\n" + consts(MaxNow=ctx.pick(5, 6)) + "VIEW View\nINVARIANT " + INVS + "\nPROPERTY SweepAppendsDels\n",
-                    workers=ctx.pick(3, 6), timeout=1500, extra=["-coverage", "1"])
+                    workers=ctx.pick(4, 6), timeout=1500, extra=["-coverage", "1"])
         if not r["ok"]:
             raise common.Infra("the intended Expire design violates %s (specification error): %s" % (r["violated"], r["out"]))
         cov = {}
@@ -86,17 +86,24 @@ def design(ctx, out):
             raise common.Infra("design model: actions never taken (vacuous): %s" % dead)
         out["design"] = r
         out["coverage"] = cov
+    except BaseException as e:      # re-raised by the main thread
+        out["error"] = e
+
+
+def variants(ctx, out):
+    """Every named broken variant is refuted by the observable invariant it must break."""
+    try:
         refuted = {}
         for dev, inv in DEVS.items():
-            v = ctx.tlc("dev_" + dev, MODS[:1], mc("dev_" + dev, "Expire", keys, ["a"], ["h1"], ["c1"], [1, 3]),
+            v = ctx.tlc("dev_" + dev, MODS[:1], mc("dev_" + dev, "Expire", ["k1", "k2"], ["a"], ["h1"], ["c1"], [1, 3]),
                         "SPECIFICATION Spec\n" + consts(Dev=dev) + "VIEW View\nINVARIANT " + inv + "\n",
                         workers=2, timeout=600, expect_violation=True)
             if v["violated"] != inv:
                 raise common.Infra("broken variant %s is not refuted by %s (TLC: %s)" % (dev, inv, v["violated"]))
             refuted[dev] = inv
         out["refuted"] = refuted
-    except BaseException as e:      # re-raised by the main thread
-        out["error"] = e
+    except BaseException as e:
+        out["verror"] = e
 
 
 # ------------------------------------------------------------------------------- programs
@@ -287,9 +294,13 @@ def describe(rej, prog):
 def run_and_judge(ctx, progs, label, report=True, retries=2):
     """Execute programs, let TLC judge the traces, compare the probes. Returns stats."""
     by_prog = {p["sc"]: p for p in progs}
+    t0 = time.time()
     trace, runs = execute(ctx, progs, label)
+    t1 = time.time()
     by_sc = split_trace(trace)
     rejs, cnt = judge(ctx, by_sc, label)
+    ctx.log("%s: %d programs executed in %.0fs (%d trace lines), judged by TLC in %.0fs" % (
+        label, len(progs), t1 - t0, sum(len(v) for v in by_sc.values()), time.time() - t1))
     verdicts = []          # (sc, kind, text, rej)
     redo = []
     for rj in rejs:
@@ -463,7 +474,9 @@ def run(ctx):
     dres = {}
     covers, gstats = generate(ctx)
     dthread = threading.Thread(target=design, args=(ctx, dres))
+    vthread = threading.Thread(target=variants, args=(ctx, dres))
     dthread.start()
+    vthread.start()
     try:
         cover_obj, nshapes_obj = pick_cover(covers[0], ctx.pick(110, 900), rng)
         cover_hook, nshapes_hook = pick_cover(covers[1], ctx.pick(30, 300), rng)
@@ -490,8 +503,10 @@ def run(ctx):
                 ctx.seed = seed0
     finally:
         dthread.join()
-    if "error" in dres:
-        raise dres["error"]
+        vthread.join()
+    for k in ("error", "verror"):
+        if k in dres:
+            raise dres[k]
     allres = [res] + extra
     cnt = {}
     for r in allres:
